@@ -124,9 +124,11 @@ CHECKS = {
         ),
         note="Trusted: SimMP as a model of multiprocessing.Pool.imap_unordered (validated against the real pool in the "
              "thorough tier, never used as an oracle); digests compared only between interpreters in the same JIT mode "
-             "on one machine.",
+             "on one machine; the main batch runs with NUMBA_DISABLE_JIT=1 (histories and references in fresh copies of "
+             "the tsdate package), the shipped JIT-on mode is covered by the sweep interpreters' slices.",
         technique="deterministic simulation: call-history machine with an in-process simulated process pool (seeded "
-                  "arrival orders), virtual clock, reference-evaluation oracle, interpreter-restart sweep over hash seeds",
+                  "arrival orders), virtual clock, per-run cold cache directory, pristine-state reference oracle, "
+                  "interpreter-restart sweep over hash seeds",
     ),
     "C33": dict(
         engine="pipe",
